@@ -144,7 +144,19 @@ def std_kinds(names, cfg_fn=None, cfg_fn2=None, partial_fn=None):
   def mk_dict(vals):
     return {k: v for k, v in zip(('a', 'b'), vals)}
 
+  def mk_cfgpos(vals):
+    c = fdl.Config(N.node_pos)
+    p0, a, va0 = vals
+    if p0 is not UNSET:
+      c[0] = p0
+    if a is not UNSET:
+      c.a = a
+    if va0 is not UNSET:
+      c[fdl.VARARGS:] = [va0]
+    return c
+
   table = {
+      'cfgpos': Kind('cfgpos', 3, True, mk_cfgpos, True),
       'cfg': Kind('cfg', 2, True, mk_buildable(fdl.Config, cfg_fn), True),
       'cfg1': Kind('cfg1', 1, True, mk_buildable(fdl.Config, cfg_fn), True),
       'cfgb': Kind('cfgb', 2, True, mk_buildable(fdl.Config, cfg_fn2), True),
